@@ -138,3 +138,7 @@ u64 __CPROVER_uninterpreted_fpext_32_64(u32);
 #define CV_fpext_32_64(x) __CPROVER_uninterpreted_fpext_32_64(x)
 u32 __CPROVER_uninterpreted_fptrunc_64_32(u64);
 #define CV_fptrunc_64_32(x) __CPROVER_uninterpreted_fptrunc_64_32(x)
+
+/* libc integer abs (std::abs(int) at -O0 is a call): two's-complement, abs(INT_MIN) wraps to INT_MIN */
+static inline u32 VERIF_abs_i32(u32 x) { return ((s32)x < 0) ? (u32)(0u - x) : x; }
+static inline u64 VERIF_abs_i64(u64 x) { return ((s64)x < 0) ? (u64)(0ULL - x) : x; }
